@@ -447,3 +447,60 @@ def diag_case(rep, M, kind, tol=1e-9, configs=None):
             res, _ = prove(z3.And(goal2), list(p.assume) + list(p.pc), name=name + ':mutated', kind='vacuity')
             rep.vac(name + ':mutated-spec-refuted', res, 'sat')
     rep.sample({'case': f'diag/{kind}/M{M}', 'free_variables': 'complex u0 in the unit box', 'tolerance': tol})
+
+
+# ------------------------------------------------------------------------------------------------ linear multistep sweepers
+
+
+def multistep_case(rep, name):
+    """u_new - dt beta_k F(u_new) = -sum_i alpha_i u_i + sum_i dts_i beta_i f_i  for the cached previous values (arbitrary symbolic)"""
+    import pySDC.implementations.sweeper_classes.Multistep as ms
+
+    cls = getattr(ms, name)
+    rep.func(ms.MultiStep.update_nodes, ms.Cache.update)
+    k = len(cls.alpha)
+    dtv, lam = z3.Real('dt'), z3.Real('lam')
+    uv = [z3.Real(f'u{i}') for i in range(k)]
+
+    def build(dt, lam_, us, float_mode=False):
+        pc, pp = (ss.FLin, {'A': np.array([[lam_]])}) if float_mode else (sp.LinProb, {'A': np.array([[lam_]], dtype=object)})
+        L = cm.make_level(pc, pp, cls, {}, dt)
+        P = L.prob
+        L.status.time = (k - 1) * dt
+        for i in range(k):
+            u = P.dtype_u(P.init)
+            u[0] = us[i]
+            L.sweep.cache.update(i * dt, u, P.eval_f(u, i * dt))
+        L.u[0] = P.dtype_u(L.sweep.cache.u[-1])
+        L.sweep.update_nodes()
+        return L
+
+    c = core.Ctx()
+    core.Ctx.cur = c
+    try:
+        c.add(dtv > 0)
+        sp.DENOMS.clear()
+        L = build(SymReal(dtv), SymReal(lam), [SymReal(v) for v in uv])
+        new = R(L.u[1][0])
+        den = [d != 0 for d in sp.DENOMS]
+        cache_ok = R(L.sweep.cache.u[-1][0]).eq(new)
+    finally:
+        core.Ctx.cur = None
+    rep.paths += 1
+    al, be = cls.alpha, cls.beta
+    spec_rhs = sum(-rv(al[i]) * uv[i] + dtv * rv(be[i]) * lam * uv[i] for i in range(k))
+    goal = new - dtv * rv(be[-1]) * lam * new == spec_rhs
+    res, m = prove(goal, [dtv > 0] + den, name=f'multistep/{name}')
+    rep.ob(f'multistep/{name}', res)
+    rep.side(f'multistep/{name}:cache-holds-new-value', bool(cache_ok))
+    if res == 'sat':
+        rep.replayed += 1
+        env = {str(v): float(core.model_value(m, v)) for v in [dtv, lam] + uv}
+        Lf = build(env['dt'], env['lam'], [env[f'u{i}'] for i in range(k)], float_mode=True)
+        got = float(Lf.u[1][0])
+        ex = sum(-al[i] * env[f'u{i}'] + env['dt'] * be[i] * env['lam'] * env[f'u{i}'] for i in range(k)) / (1 - env['dt'] * be[-1] * env['lam'])
+        if abs(got - ex) > 1e-8 * (1 + abs(ex)):
+            rep.violation(f'{PID}/multistep/{name}', f'multistep/{name}: new value {got!r}, linear multistep formula gives {ex!r} for {env}', {'task': ['multistep', name], 'env': env, 'observed': got, 'expected': ex})
+        else:
+            rep.unreproduced(f'multistep/{name}', env)
+    rep.sample({'case': f'multistep/{name}', 'steps': k, 'free_variables': 'previous values, dt, lambda'}, limit=8)
